@@ -30,6 +30,8 @@ func init() {
 	register("C14", C14, C14Replay)
 	register("C15", C15, C15Replay)
 	register("C16", C16, C16Replay)
+	register("C17", C17, C17Replay)
+	register("C18", C18, C18Replay)
 	register("C19", C19, C19Replay)
 	register("C20", C20, C20Replay)
 }
